@@ -30,6 +30,7 @@ import (
 	"github.com/conduitio/conduit/pkg/foundation/cerrors/conduiterr"
 	"github.com/conduitio/conduit/pkg/foundation/log"
 	"github.com/conduitio/conduit/pkg/foundation/metrics/measure"
+	"github.com/conduitio/conduit/pkg/foundation/verifhook"
 	lifecyclev1 "github.com/conduitio/conduit/pkg/lifecycle"
 	"github.com/conduitio/conduit/pkg/lifecycle-poc/funnel"
 	"github.com/conduitio/conduit/pkg/pipeline"
@@ -259,6 +260,7 @@ func (s *Service) Start(
 		return cerrors.Errorf("can't start pipeline %s: %w", pl.ID, pipeline.ErrPipelineRunning)
 	}
 
+	verifhook.Point("lifecycle.start.checked")
 	s.logger.Debug(ctx).Str(log.PipelineIDField, pl.ID).Msg("starting pipeline")
 	s.logger.Trace(ctx).Str(log.PipelineIDField, pl.ID).Msg("building tasks")
 
@@ -281,6 +283,7 @@ func (s *Service) Start(
 	// pipeline, so a later WaitPipeline can't return a stale result.
 	s.terminalErrors.Delete(pipelineID)
 
+	verifhook.Point("lifecycle.start.before-run")
 	s.logger.Trace(ctx).Str(log.PipelineIDField, pl.ID).Msg("running pipeline")
 
 	// runPipeline publishes rp into runningPipelines itself, at the exact
@@ -309,6 +312,7 @@ func (s *Service) Stop(ctx context.Context, pipelineID string, force bool) error
 		return cerrors.Errorf("can't stop pipeline with status %q: %w", rp.pipeline.GetStatus(), pipeline.ErrPipelineNotRunning)
 	}
 
+	verifhook.Point("lifecycle.stop.checked")
 	return s.stopRunnablePipeline(ctx, rp, force)
 }
 
@@ -1534,6 +1538,7 @@ func (s *Service) runPipeline(rp *runnablePipeline) error {
 		// will potentially fail to be stored.
 		ctx := context.Background()
 
+		verifhook.Point("lifecycle.run.ended")
 		workersWg.Wait()
 
 		// Invariant 1/3 (enforcement site, crux of slice 3b): close the
@@ -1822,6 +1827,7 @@ func (s *Service) StartWithBackoff(ctx context.Context, rp *runnablePipeline) er
 	case <-time.After(duration):
 	}
 
+	verifhook.Point("lifecycle.recover.backoff-elapsed")
 	// The user may have stopped or restarted the pipeline while we were waiting.
 	// If the live entry is no longer this rp, an external Start already replaced
 	// it — that run owns cleanup, so return nil and do not restart.
